@@ -165,9 +165,14 @@ def pg_arbphase(seq, V, St, w):
         seq.add(Pulse.ConstantAmplitude(1.0, InterpolatedWaveform(120, [0.0, 1.0, 0.0], times=[0.0, 0.25, 1.0]), 0.0), "g")
     if St(4):
         seq.add(Pulse.ConstantDetuning(InterpolatedWaveform(120, [0.0, 1.0, 0.5]), -1.0, 0.0), "g", "no-delay")
+    if St(5):
+        # optional waveform arguments at non-default values
+        seq.add(Pulse.ConstantDetuning(InterpolatedWaveform(V(4, 120, True), [0.0, 1.0, 0.2, 0.8], interpolator="interp1d"), 0.0, 0.0), "g")
+    if St(6):
+        seq.add(Pulse.ConstantDetuning(KaiserWaveform(V(4, 120, True), V(5, 0.6), beta=V(6, 5.0)), 0.0, 0.0), "g")
 
 
-PROGRAMS = {"styles": (pg_styles, 15), "eom": (pg_eom, 8), "dmm_slm": (pg_dmm_slm, 7), "xy": (pg_xy, 5), "arbphase": (pg_arbphase, 5)}
+PROGRAMS = {"styles": (pg_styles, 15), "eom": (pg_eom, 8), "dmm_slm": (pg_dmm_slm, 7), "xy": (pg_xy, 5), "arbphase": (pg_arbphase, 7)}
 
 REGS = ["2d", "2d-layout", "3d", "3d-layout", "mappable"]
 DEVS = ["virtual", "MockDevice", "custom-physical"]
@@ -254,13 +259,13 @@ def cases(tier):
             for act in ((), (0,), (nst - 1,)):
                 out.append((name, act, (), regkind, devkind))
         # parametrized variants: each numeric position alone, all positions, pairs (thorough)
-        npos = {"styles": 8, "eom": 7, "dmm_slm": 4, "xy": 5, "arbphase": 4}[name]
+        npos = {"styles": 8, "eom": 7, "dmm_slm": 4, "xy": 5, "arbphase": 7}[name]
         psets = [(p,) for p in range(npos)] + [tuple(range(npos))]
         if tier == "thorough":
             psets += list(itertools.combinations(range(npos), 2))
         kinds = [e[0] for e in c08.EXPRS]
         for pi, ps in enumerate(psets):
-            for act in ((), (1,), (nst - 2,)):
+            for act in ((), (1,), (nst - 2,), (nst - 1,)):
                 chosen = tuple((p, kinds[(pi + p + len(act)) % len(kinds)]) for p in ps)
                 out.append((name, act, chosen, "2d", "virtual"))
                 out.append((name, act, chosen, "mappable", "virtual"))
@@ -348,7 +353,9 @@ def run_case(case):
                     doc = seq._serialize()
             except Exception as e:
                 msg = str(e)
-                if "No abstract representation for" in msg:
+                if "Export of an InterpolatedWaveform is only supported" in msg or "'interpolator' is not in the signature" in msg:
+                    out.append((f"C04:encode-unsupported-interpolator:{codec}", f"{case}: {e}"[:250]))
+                elif "No abstract representation for" in msg:
                     op = msg.split("'")[1] if "'" in msg else "?"
                     out.append((f"C04:encode-unsupported-expression:{codec}:{op}", f"{case}: {e}"[:250]))
                 else:
